@@ -13,7 +13,8 @@ from mc import harness, engine, randsrc
 
 NO_CONFIRM_KINDS = ("fixed-program:",)      # process / repetition dependence is observed across interpreters, not per case
 LETTERS = ["rand", "randn", "normal", "randint", "uniform_", "normal_", "xavier_uniform_", "xavier_normal_", "kaiming_uniform_",
-           "kaiming_normal_", "Linear", "Conv1d", "Conv2d", "BatchNorm", "Dropout", "split", "train_step", "apply_init", "params_init"]
+           "kaiming_normal_", "Linear", "Conv1d", "Conv2d", "BatchNorm", "Dropout", "split", "train_step", "apply_init", "params_init",
+           "draws_other_dtypes"]
 SEEDS = (0, 1, 12345)
 
 def _dig(arrs):
@@ -29,6 +30,18 @@ def run_letter(sg, letter):
     if letter == "randn": return [sg.randn(3, 2).data]
     if letter == "normal": return [sg.normal(1.0, 2.0, 4).data]
     if letter == "randint": return [sg.randint(0, 10, (5,)).data]
+    if letter == "draws_other_dtypes":
+        # the same generators asked for every dtype they accept: the seeded stream feeds all of them
+        out = []
+        for dt in (np.int64, np.int32, np.int16, int):
+            out.append(sg.randint(0, 1000, (4,), dtype=dt).data)
+        for dt in (np.float64, np.float32, np.float16):
+            out += [sg.rand(3, dtype=dt).data, sg.randn(3, dtype=dt).data, sg.normal(0.5, 2.0, 3, dtype=dt).data]
+        for dt in (np.float64, np.float32):
+            t = sg.Tensor(np.zeros((3, 4), dtype=dt))
+            for f in ("uniform_", "normal_", "xavier_normal_", "kaiming_uniform_"):
+                getattr(nn.init, f)(t); out.append(np.array(t.data, copy=True))
+        return out
     if letter in ("uniform_", "normal_", "xavier_uniform_", "xavier_normal_", "kaiming_uniform_", "kaiming_normal_"):
         t = sg.Tensor(np.zeros((3, 4), dtype=np.float32)); getattr(nn.init, letter)(t); return [t.data]
     if letter == "Linear":
